@@ -323,6 +323,32 @@ def run(ctx):
     reach_ = cg_.reachable_from(["blots_core::expressions::pairs_to_expr_inner"])
     int_parsers = sorted(c_ for n_ in reach_ if n_.startswith("blots_core::") or n_.startswith("<blots_core") for c_ in cg_.out.get(n_, ()) if c_.endswith("from_str_radix"))
     ctx.inst("C16.R3", "builder#integer-parse-reachable", bool(int_parsers), "integer parsers reachable from the AST builder: %s (hexadecimal / binary literals converted any other way round twice above 2^53)" % (sorted(set(int_parsers)) or "none"), None)
+    # the radix marker is a prefix: looked for anywhere in the text, `0x10b1` contains a binary marker too
+    anyw = ["%s(%r) at %s" % (x["name"], H.lit(x["args"][0])["v"], H.loc(x)) for x in H.walk(num_arm["body"]) if H.kind(x) == "MethodCall" and x["name"] in ("split_once", "rsplit_once", "find", "rfind", "contains", "split", "splitn", "match_indices") and x.get("args") and H.lit(x["args"][0]) and str(H.lit(x["args"][0])["v"]).lower() in ("0b", "0x", "b", "x")]
+    ctx.inst("C16.R3", "builder#radix-marker-is-a-prefix", not anyw, "radix markers located anywhere in the literal instead of at its start: %s" % (anyw or "none"), H.loc(num_arm["body"]))
+    # every decimal form may carry an exponent (`1e3`, `1.5e3`, `.5e3`)
+    try:
+        def expand(e, depth=0):
+            if e["k"] == "ident" and e["v"] in G.rules and G.ty(e["v"]) == "silent" and depth < 6 and e["v"] != "integer":
+                return expand(G.expr(e["v"]), depth + 1)
+            out = dict(e)
+            for k_ in ("a", "b", "e"):
+                if k_ in e and isinstance(e[k_], dict):
+                    out[k_] = expand(e[k_], depth + 1)
+            return out
+        dn = expand(G.expr("decimal_number"))
+        def has_exp(e):
+            return any(x["k"] == "insens" and x["v"].lower() == "e" for x in G.walk(e))
+        alts_ = G.alts(dn)
+        if len(alts_) == 1 and alts_[0]["k"] == "seq":
+            parts_ = G.seq(alts_[0])
+            head_alts = G.alts(parts_[0]) if parts_[0]["k"] == "choice" else None
+            v_exp = True if (head_alts and any(has_exp(p_) for p_ in parts_[1:])) else (all(has_exp(a_) for a_ in (head_alts or [alts_[0]])) or None)
+        else:
+            v_exp = all(has_exp(a_) for a_ in alts_)
+        ctx.inst("C16.R3", "grammar#exponent-on-every-decimal-form", v_exp, "alternatives of decimal_number: %d; each can be followed by an exponent: %s" % (len(alts_), v_exp), "blots-core/src/grammar.pest")
+    except CheckerError as ex_:
+        ctx.inst("C16.R3", "grammar#exponent-on-every-decimal-form", None, "not read: %s" % ex_, "blots-core/src/grammar.pest")
     ctx.rule("C16.R4", "a negative literal is read as Negate(number) and evaluated as the IEEE negation, so the text `-0` reads back as -0 (not as 0 - 0 = +0)", floor=1)
     from rules import c11 as c11_
     c11_.unary_rule(ctx, "C16.R4", core)
